@@ -28,12 +28,35 @@ Print Assumptions C10_reflect_iterations_known.
 Theorem C10_no_clock_no_randomness : nondet_calls = [].
 Proof. reflexivity. Qed.
 Print Assumptions C10_no_clock_no_randomness.
-(* 3. pooled scope maps: over any history the stack of a long-used engine equals the stack fresh
-      allocations would give, and every map waiting in the pool is empty *)
+(* 3. pooled scope maps: over any history of pooled pushes, pushes of caller-owned maps, sets and pops, the
+      stack of a long-used engine and every map handed back to a caller equal what brand-new maps would
+      give; every map waiting in the pool is empty; no lookup can tell the difference; a caller's map is
+      never cleared *)
 Theorem C10_pooled_equals_fresh : forall (val : Type) ops s, pool_clean val s ->
-  pstack val (fold_left (pstep val) ops s) = fold_left (pstep_fresh val) ops (pstack val s).
+  pview val (fold_left (pstep val) ops s) = fold_left (pstep_fresh val) ops (pview val s).
 Proof. exact pooled_equals_fresh. Qed.
 Print Assumptions C10_pooled_equals_fresh.
 Theorem C10_pool_stays_clean : forall (val : Type) ops s, pool_clean val s -> pool_clean val (fold_left (pstep val) ops s).
 Proof. exact pool_stays_clean. Qed.
 Print Assumptions C10_pool_stays_clean.
+Theorem C10_pooled_lookup_equals_fresh : forall (val : Type) ops s k, pool_clean val s ->
+  plookup val (pstack val (fold_left (pstep val) ops s)) k
+  = plookup val (fstack val (fold_left (pstep_fresh val) ops (pview val s))) k.
+Proof. exact pooled_lookup_equals_fresh. Qed.
+Print Assumptions C10_pooled_lookup_equals_fresh.
+Theorem C10_own_map_kept : forall (val : Type) id m sets s,
+  let s1 := fold_left (pstep val) (map (fun kv => PSet val (fst kv) (snd kv)) sets) (pstep val s (PPushOwn val id m)) in
+  pout val (pstep val s1 (PPop val)) = (id, rev sets ++ m) :: pout val s.
+Proof. exact own_map_kept. Qed.
+Print Assumptions C10_own_map_kept.
+(* ... whereas a Pop that forgets to clear lets an unrelated later scope see a stale variable *)
+Theorem C10_dirty_pool_leaks : exists ops k,
+  plookup nat (pstack nat (fold_left (pstep_dirty nat) ops {| pstack := [([], KRoot)]; ppool := []; pout := [] |})) k
+  <> plookup nat (fstack nat (fold_left (pstep_fresh nat) ops {| fstack := [([], KRoot)]; fout := [] |})) k.
+Proof. exact dirty_pool_leaks. Qed.
+Print Assumptions C10_dirty_pool_leaks.
+(* non-vacuity: a reachable state with a non-empty clean pool *)
+Example C10_pool_reachable :
+  let s := fold_left (pstep nat) [PPush nat; PSet nat [x61] 1; PPop nat] {| pstack := [([], KRoot)]; ppool := []; pout := [] |} in
+  ppool nat s = [[]] /\ pool_clean nat s.
+Proof. cbn. split; [reflexivity|repeat constructor]. Qed.
